@@ -164,6 +164,23 @@ class NpProxy:
             return _np.asarray(obj, dtype=object)
         return _np.asarray(obj, dtype=dtype, **kw)
 
+    def searchsorted(self, a, v, side="left", **kw):
+        """linear scan with forking comparisons on symbolic data (same result as the bisection on a sorted array)"""
+        if _active() and (_has_sym(a) or _has_sym(v)):
+            arr = list(_np.asarray(a, dtype=object).reshape(-1))
+
+            def one(x):
+                i = 0
+                while i < len(arr) and bool((arr[i] < x) if side == "left" else (arr[i] <= x)):
+                    i += 1
+                return i
+
+            if isinstance(v, (_np.ndarray, list, tuple)):
+                vv = _np.asarray(v, dtype=object)
+                return _np.array([one(x) for x in vv.reshape(-1)], dtype=int).reshape(vv.shape)
+            return one(v)
+        return _np.searchsorted(a, v, side=side, **kw)
+
     def atleast_1d(self, x):
         if _active() and is_sym(x):
             a = _np.empty(1, dtype=object)
